@@ -756,3 +756,91 @@ func (g *Gen) HistoryExpiry() []E {
 	evs = append(evs, E{"op": "Count", "c": c, "q": []interface{}{}, "audit": true})
 	return evs
 }
+
+// ---------------------------------------------------------------- long strings that share long prefixes
+
+// HistoryLongStr: an indexed field whose values are strings of 100 to 70 000 bytes that are prefixes of one another
+// (paddings: n times the same byte), next to short strings, numbers and nil.  Whatever an index key keeps of a long
+// string, range scans with exclusive bounds, index-served sorts and windows must agree with the comparison of the
+// whole strings; the lengths sit around 128, 1 024 and 32 768 bytes, where a key encoding might cut.
+func (g *Gen) HistoryLongStr() []E {
+	c := g.colls[0]
+	lens := []int{100, 127, 128, 129, 130, 1023, 1024, 1025, 1026, 1500, 4096, 32767, 32768, 32769, 70000}
+	g.r.Shuffle(len(lens), func(i, j int) { lens[i], lens[j] = lens[j], lens[i] })
+	mid := lens[:8]
+	if g.chance(0.7) { // most histories stay below the key limits of the stores: every write succeeds
+		k := 0
+		for _, n := range lens {
+			if n <= 4096 && k < 8 {
+				mid[k] = n
+				k++
+			}
+		}
+		mid = mid[:k]
+	}
+	vals := []V{AStr("p"), AStr("pp"), AStr("q"), ANil(), ANum(g.smallN[1], "i")}
+	for _, n := range mid {
+		vals = append(vals, APad(n))
+	}
+	evs := []E{{"op": "CreateCollection", "c": c}}
+	early := g.chance(0.5)
+	if early {
+		evs = append(evs, E{"op": "CreateIndex", "c": c, "f": B("s")})
+	}
+	// ids in an order unrelated to the values
+	perm := g.r.Perm(len(g.ids))
+	var docs []interface{}
+	for i, v := range vals {
+		if i >= len(perm) {
+			break
+		}
+		docs = append(docs, AObj("_id", AStr(g.ids[perm[i]]), "s", v, "x", ANum(g.smallN[i%len(g.smallN)], "i")))
+	}
+	// a second document for some of the long values: runs of equal keys
+	for i := 0; i < 3 && len(vals)+i < len(perm); i++ {
+		docs = append(docs, AObj("_id", AStr(g.ids[perm[len(vals)+i]]), "s", vals[5+g.r.Intn(len(vals)-5)], "x", g.smallNum()))
+	}
+	for i := 0; i < len(docs); i += 4 {
+		j := i + 4
+		if j > len(docs) {
+			j = len(docs)
+		}
+		evs = append(evs, E{"op": "Insert", "c": c, "docs": docs[i:j]})
+	}
+	if !early {
+		evs = append(evs, E{"op": "CreateIndex", "c": c, "f": B("s"), "audit": true})
+	}
+	un := func(op string, v V) []interface{} {
+		return []interface{}{"where", []interface{}{"un", op, B("s"), []interface{}{"lit", v}}}
+	}
+	sortS := func(dir int) []interface{} {
+		return []interface{}{"sort", []interface{}{[]interface{}{B("s"), dir}}}
+	}
+	for _, v := range vals[5:] {
+		op := g.pick([]string{"gt", "lt", "gte", "lte", "eq"})
+		q := []interface{}{un(op, v)}
+		switch g.r.Intn(4) {
+		case 0:
+			q = append(q, sortS(1))
+		case 1:
+			q = append(q, sortS(-1))
+		}
+		evs = append(evs, E{"op": g.pick([]string{"FindAll", "FindAll", "Count"}), "c": c, "q": q})
+	}
+	// two-sided ranges between neighbouring lengths
+	for k := 0; k < 3; k++ {
+		a, b := vals[5+g.r.Intn(len(vals)-5)], vals[5+g.r.Intn(len(vals)-5)]
+		lo, hi := g.pick([]string{"gt", "gte"}), g.pick([]string{"lt", "lte"})
+		crit := []interface{}{"and", []interface{}{"un", lo, B("s"), []interface{}{"lit", a}}, []interface{}{"un", hi, B("s"), []interface{}{"lit", b}}}
+		evs = append(evs, E{"op": "FindAll", "c": c, "q": []interface{}{[]interface{}{"where", crit}}})
+	}
+	for _, dir := range []int{1, -1} {
+		evs = append(evs, E{"op": "FindAll", "c": c, "q": []interface{}{sortS(dir)}})
+		evs = append(evs, E{"op": "FindAll", "c": c, "q": []interface{}{sortS(dir), []interface{}{"skip", 1 + g.r.Intn(6)}, []interface{}{"limit", 1 + g.r.Intn(4)}}})
+	}
+	evs = append(evs, E{"op": "Derived", "c": c, "q": []interface{}{un("gt", vals[5]), sortS(1), []interface{}{"skip", 1}}, "js": []interface{}{0, 1}, "ids": []interface{}{B(g.ids[perm[0]])}})
+	evs = append(evs, E{"op": "Update", "c": c, "q": []interface{}{un("gt", vals[6]), sortS(-1), []interface{}{"limit", 2}}, "upd": g.updateMap(), "audit": true})
+	evs = append(evs, E{"op": "Delete", "c": c, "q": []interface{}{un("lt", vals[7%len(vals)])}, "audit": true})
+	evs = append(evs, E{"op": "FindAll", "c": c, "q": []interface{}{sortS(1)}}, E{"op": "Count", "c": c, "q": []interface{}{}, "audit": true})
+	return evs
+}
